@@ -50,7 +50,7 @@ def _scn(draw):
     if draw(st.integers(0, 3)) == 0:
         base = draw(st.sampled_from(["Clips", "s", "Reel1"]))
         sib = base + draw(st.sampled_from(["_proxy", "2", " b"]))
-        if base not in scn["tree"] and sib not in scn["tree"]:
+        if not ({base, sib} & hist.top_names_used(scn)):
             scn["tree"][base] = {"in.mov": "inside"}
             scn["tree"][sib] = {"next.mov": "beside", "more.mov": "beside too"}
             scn["steps"] = [{"op": "create", "root": base, "formats": ["md5"], "flags": []}, {"op": "create", "root": "", "formats": ["md5"], "flags": []}] + scn["steps"]
